@@ -111,6 +111,48 @@ def shared_effects(it, state_obj=None):
     return bad
 
 
+def decode_keeps_state(ctx):
+    """What the decode side keeps between calls: memoising wrappers on its
+    functions and writes of its abstract runs to module- or class-level
+    objects.  -> list of descriptions (empty when it keeps nothing).
+    Cached on the context."""
+    cached = ctx.__dict__.get('_decode_keeps_state')
+    if cached is not None:
+        return cached
+    from .. import models
+    prog = ctx.prog
+    out = []
+    dfuncs = [fi for fi in prog.functions.values()
+              if fi.module.name.endswith(('.decode', '.frame', '.header',
+                                          '.body', '.heartbeat', '.base'))]
+    caching, _unk = models.wrappers(prog, dfuncs)
+    out.extend('memoised: %s' % c for c in caching)
+    seen = set()
+    f0 = F.UnmarshalFacts(ctx, None)
+    keys = [k for k, _ in ctx.index_mapping()]
+    runs = [('frame.unmarshal', f0.it)]
+    if keys:
+        runs.append(('frame.unmarshal', F.UnmarshalFacts(ctx, keys[0]).it))
+    for fi in prog.module('decode').functions.values():
+        try:
+            it, _o = codec.run(prog, fi)
+        except (AnalysisError, I.Unsupported):
+            continue
+        runs.append((fi.short, it))
+    for where, it in runs:
+        for e in shared_effects(it):
+            if e.kind == 'raise-shared-exception':
+                continue
+            k = (e.kind, e.site)
+            if k in seen:
+                continue
+            seen.add(k)
+            out.append('%s writes a module- or class-level object (%s %s) '
+                       'at %s' % (where, e.kind, str(e.detail)[:40], e.site))
+    ctx.__dict__['_decode_keeps_state'] = out
+    return out
+
+
 SKIP_DATA_MODEL = {'__init__', 'marshal', 'unmarshal', 'validate',
                    '__init_subclass__', '__new__', '__set__', '__get__',
                    '__setattr__', '__delattr__', '__set_name__'}
@@ -220,6 +262,28 @@ def run(chk, ctx):
            all(v == ['pamqp.encode.DEPRECATED_RABBITMQ_SUPPORT']
                for v in writers.values()),
            'functions that rebind module globals: %r' % (writers,))
+    # the legacy switch is the application's: no function of the package
+    # flips it (a decode that switches it changes what every later encode,
+    # in every thread, emits)
+    callers = []
+    for fi in prog.functions.values():
+        if fi.short == 'encode.support_deprecated_rabbitmq':
+            continue
+        for n in ast.walk(fi.node):
+            if isinstance(n, ast.Call):
+                try:
+                    tgt = prog.resolve_static(fi.module, n.func, fi.module)
+                except Exception:
+                    tgt = None
+                if isinstance(tgt, FuncInfo) and tgt.short == \
+                        'encode.support_deprecated_rabbitmq':
+                    callers.append('%s at %s:%d' % (
+                        fi.short, fi.module.relpath, n.lineno))
+    chk.ob('C16.G', 'callers of the legacy switch', not callers,
+           'no function of the package calls '
+           'encode.support_deprecated_rabbitmq' if not callers else
+           'the package itself flips the legacy switch: %s' %
+           '; '.join(callers[:3]))
     nfun = 0
     for fi in list(prog.functions.values()):
         nfun += 1
